@@ -80,7 +80,11 @@ pub fn run_front(c: &Case) -> Out<Interval<f64>> {
         2 => proportion::ci_wilson_ratio(conf, n, k as f64 / n as f64),
         3 => {
             let data: Vec<bool> = (0..c.n).map(|i| is_success(c.pattern, i, c.n, c.k)).collect();
-            proportion::ci_true(conf, &data)
+            if c.pattern % 2 == 0 {
+                proportion::ci_true(conf, &data)
+            } else {
+                proportion::ci_true(conf, &crate::gen::sparse(&data, c.n * 3 + c.k, 1 + data.len() / 2))
+            }
         }
         4 => {
             // data are integers, the predicate is "value below threshold"
@@ -113,8 +117,14 @@ pub fn run_front(c: &Case) -> Out<Interval<f64>> {
             let mut s = proportion::Stats::default();
             let data: Vec<bool> = (0..c.n).map(|i| is_success(c.pattern, i, c.n, c.k)).collect();
             let cut = (c.n / 3) as usize;
-            s.extend(&data[..cut].to_vec());
-            s.extend(&data[cut..].to_vec());
+            if c.pattern % 2 == 0 {
+                s.extend(&data[..cut].to_vec());
+                s.extend(&data[cut..].to_vec());
+            } else {
+                // containers whose borrowed iterator is bounded but not exact-sized (size_hint (0, Some(len + holes)))
+                s.extend(&crate::gen::sparse(&data[..cut], c.n * 7 + c.k, 1 + cut / 2));
+                s.extend(&crate::gen::sparse(&data[cut..], c.n * 13 + c.k, 1 + data.len() / 3));
+            }
             s.ci(conf)
         }
         7 => {
